@@ -3,3 +3,5 @@ pub assume_specification<T, E> [std::result::Result::<T, E>::unwrap_or] (r: std:
 pub assume_specification<T> [std::mem::replace] (dest: &mut T, src: T) -> (r: T) ensures r == *old(dest), *final(dest) == src;
 // std::cmp::min on usize
 pub fn min(a: usize, b: usize) -> (r: usize) ensures r == if a <= b { a } else { b } { if a <= b { a } else { b } }
+pub assume_specification<T> [std::option::Option::<T>::replace] (o: &mut Option<T>, v: T) -> (r: Option<T>) ensures r == *old(o), *final(o) == Some(v);
+pub assume_specification [<usize as core::convert::From<bool>>::from] (b: bool) -> (r: usize) ensures r == (if b { 1usize } else { 0usize });
